@@ -283,7 +283,9 @@ impl Node {
             s.shutdown().await
         });
         drop(self.system);
+        let mark = crate::common::panic_mark();
         drop(self.rt);
+        crate::common::discard_panics_since(mark);
         r
     }
 
@@ -292,7 +294,9 @@ impl Node {
     /// tokio runs mandatory blocking tasks on shutdown).
     pub fn kill(self) {
         drop(self.system);
+        let mark = crate::common::panic_mark();
         drop(self.rt);
+        crate::common::discard_panics_since(mark);
     }
 
     pub fn tcp_client(&self) -> Result<TcpClient, IggyError> {
